@@ -821,6 +821,9 @@ def _parse_phase_rest(
             if any(map(line.startswith, return_tokens)):
                 nxt_colon = line.find(":", 1)
                 val = line[nxt_colon + 1 :].strip()
+                if word_wrap:
+                    # A word-wrapped return line is one text: re-join it the same way as wrapped parameter lines
+                    val = " ".join(map(str.strip, val.split("\n")))
                 if intermediate_repr["returns"] is None:
                     intermediate_repr["returns"] = OrderedDict((("return_type", {}),))
                 intermediate_repr["returns"]["return_type"].update(
